@@ -1019,6 +1019,17 @@ def c17_cases(tier, seed):
                  validator=("brackets" if helper and rng.random() < 0.3 else "none"),
                  completion=rng.choice(["circular", "list"]), cols=rng.choice([80, 80, 20]), meta=meta)
         cases.append(c)
+    # vi operators with counts on both sides whose product is beyond the 16-bit repeat count (it saturates)
+    for k in range(max(4, n // 25)):
+        t = " ".join(rng.choice(["a", "bb", "c,d", "x_y"]) for _ in range(rng.randint(2, 6)))
+        op = rng.choice(["d", "c", "y", "<", ">"])
+        keys = list(t) + ["Esc", rng.choice(["0", "$", "b"])] + list(rng.choice(["256", "300", "999"])) + [op] + \
+            list(rng.choice(["256", "300", "999"])) + [rng.choice(["l", "h", "w", "b", "e", " ", "j", "k"])]
+        if op == "c":
+            keys += ["q", "Esc"]
+        keys += [rng.choice([".", "u", "p", "x"]), "Enter", "Enter"]
+        chunks = [key_bytes(kk) for kk in keys]
+        cases.append(Case(keys, mode="vi", timeout=0, prompt="> ", reads=2, chunks=chunks, cols=80, meta={}))
     # the candidate listing in a window about as narrow as the widest candidate (also narrowed by a resize while listing)
     for k in range(n // 10):
         mode = rng.choice(["emacs", "emacs", "vi"])
